@@ -148,6 +148,9 @@ class SQLQueryParameterizationTransformer(
             ):
                 prefix, raw_value = self._extract_prefix_raw_value(e)
                 if all(char not in prefix for char in "bru"):
+                    if not isinstance(e, cst.FormattedStringText):
+                        # literal braces have to survive the str.format call
+                        raw_value = raw_value.replace("{", "{{").replace("}", "}}")
                     format_pieces.append(raw_value)
                     exception = True
             if not exception:
@@ -342,6 +345,10 @@ class SQLQueryParameterizationTransformer(
                 )
             case cst.FormattedStringText():
                 if extra_raw_value:
+                    # braces are doubled in the text of an f-string only
+                    extra_raw_value = extra_raw_value.replace("{{", "{").replace(
+                        "}}", "}"
+                    )
                     extra = cst.SimpleString(
                         value=("r" if "r" in prefix else "") + f"'{extra_raw_value}'"
                     )
